@@ -935,7 +935,11 @@ func RunSession(spec *SessSpec) *Trace {
 				return len(now)-len(base) >= want
 			})
 		case "persistbelow": // replicas report a persisted seqno below what the vBucket holds: newer events wait in rollback mitigation
-			env.Sim.SetObserve(uint16(st.VB), 0, env.Sim.FailoverCopy(uint16(st.VB))[0].UUID, uint64(st.N))
+			n := uint64(st.N)
+			if st.Sel == "high-1" { // everything but the newest item is persisted: that item (not its marker) waits
+				n = env.Sim.High(uint16(st.VB)) - 1
+			}
+			env.Sim.SetObserve(uint16(st.VB), 0, env.Sim.FailoverCopy(uint16(st.VB))[0].UUID, n)
 		case "holdcons": // the next delivery blocks inside ConsumeEvent until "releasecons"
 			s.pmu.Lock()
 			s.consHold = make(chan struct{})
